@@ -4,5 +4,5 @@
 here="$(cd "$(dirname "$0")" && pwd)"
 for spec in "$@"; do echo "$spec"; done | xargs -P 3 -n 1 sh -c '
   s="${0%%:*}"; ids=$(echo "${0#*:}" | tr "," " ")
-  out=$('"$here"'/try_seed.sh /verif/seeded/$s/patch.diff $ids 2>&1 | cut -c1-300 | tr "\n" " ")
+  out=$('"$here"'/try_seed.sh '"$here"'/../seeded/$s/patch.diff $ids 2>&1 | cut -c1-300 | tr "\n" " ")
   echo "$s: $out"'
